@@ -9,7 +9,7 @@ EXTENDS Ruler
 
 Distinct == ClockModel = "distinct"
 AtRet(k) == ev.a = "ret" /\ ev.kind = k
-Graded == AtRet("build") /\ ev.verdict \in {"ok", "fail"}
+Graded == AtRet("build") /\ ev.verdict \in {"ok", "fail"} /\ RulesSane
 Pre == g.pre
 ScopeI == ScopeIdx(g.goal)
 Scope == ScopeTargets(g.goal)
@@ -48,7 +48,7 @@ ExpCount(e) == Cardinality({p \in MissingLeaves : e = <<"FileNotFound", p, "">>}
 
 (* ---------------- C01 ------------------------------------------------------ *)
 C01_ScratchEqual ==
-  (AtRet("build") /\ ev.verdict = "ok" /\ Distinct) =>
+  (Graded /\ ev.verdict = "ok" /\ Distinct) =>
      \A p \in Scope : Has(ws, p) /\ (Tainted(p) \/ ws[p].c = Scratch(p))
 
 (* ---------------- C02 ------------------------------------------------------ *)
@@ -85,7 +85,7 @@ C02_RepeatIsNoOp ==
 
 (* ---------------- C03 ------------------------------------------------------ *)
 C03_SourcesFinal ==
-  AtRet("build") => \A x \in g.execs : KnownRid(x.rid) =>
+  (AtRet("build") /\ RulesSane) => \A x \in g.execs : KnownRid(x.rid) =>
      LET r == RuleById(x.rid)  seen == x.seen IN
      \A j \in DOMAIN r.src : /\ seen[j] # "MISSING"
                              /\ Has(ws, r.src[j]) /\ seen[j] = ws[r.src[j]].c
@@ -106,7 +106,7 @@ C04_ErrorsExact ==
 C04_DependentsDoNotRun ==
   Graded => \A x \in g.execs : KnownRid(x.rid) => Reached(RuleById(x.rid))
 C04_OthersStillBuilt ==
-  (AtRet("build") /\ ev.verdict = "fail" /\ Distinct) =>
+  (Graded /\ ev.verdict = "fail" /\ Distinct) =>
      \A p \in Scope : (Fine(p) /\ ~Tainted(p)) => Has(ws, p) /\ ws[p].c = Scratch(p)
 C04_NothingRemembered ==
   Graded => /\ \A k \in ScopeI : Fails(rules[k]) => SameFn(HistOf(hist, RuleId(rules[k])), HistOf(Pre.hist, RuleId(rules[k])))
@@ -138,7 +138,7 @@ PreContents == {Pre.ws[p].c : p \in AllTargets \cap DOMAIN Pre.ws} \cup {Pre.cac
 NowContents == {ws[p].c : p \in AllTargets \cap DOMAIN ws} \cup {cache[n].c : n \in DOMAIN cache}
 \* what a user's command may have overwritten: targets of rules whose output is not a function of the declared
 \* sources, and (at a crash instant) the targets of the command that was running
-ExemptContents == {Pre.ws[p].c : p \in {q \in AllTargets \cap DOMAIN Pre.ws : Tainted(q)}}
+ExemptContents == {Pre.ws[p].c : p \in {q \in AllTargets \cap DOMAIN Pre.ws : RulesSane /\ Tainted(q)}}
                   \cup (IF ev.a = "crash" /\ Has(ev, "inexec") /\ KnownRid(ev.inexec)
                         THEN {Pre.ws[p].c : p \in SeqSet(RuleById(ev.inexec).tg) \cap DOMAIN Pre.ws} ELSE {})
 \* the property assumes deterministic commands: an invocation in which a command with an undeclared input ran is not judged
@@ -161,11 +161,18 @@ C10_BuildBringsBack ==
 (* ---------------- C11 ------------------------------------------------------ *)
 C11_CrashStateSane == ev.a = "crash" => rdir.tab # "torn" /\ rdir.htorn = {}
 C11_Recovers ==
-  (AtRet("build") /\ g.sc0) =>
+  (AtRet("build") /\ g.sc0 /\ RulesSane) =>
      /\ ev.verdict \in {"ok", "fail", "err:TopologicalSortFailed"}
-     /\ (ev.verdict = "err:TopologicalSortFailed") = (g.goal # "" /\ g.goal \notin AllTargets)
-     /\ (EnvFreeScope /\ ExpErrSet = {} /\ (g.goal = "" \/ g.goal \in AllTargets)) => ev.verdict = "ok"
+     /\ (ev.verdict = "err:TopologicalSortFailed") = ~SortOK(g.goal)
+     /\ (EnvFreeScope /\ ExpErrSet = {} /\ SortOK(g.goal)) => ev.verdict = "ok"
      /\ Distinct => \A p \in Scope : (Fine(p) /\ ~Tainted(p)) => Has(ws, p) /\ ws[p].c = Scratch(p)
+
+(* ---------------- C12 / C16, end to end -------------------------------------- *)
+\* an invocation is refused exactly when dependency analysis must fail or a state file it has to read is damaged
+DamagedNeeded == Pre.tab = "torn" \/ (ev.kind = "build" /\ Pre.tab # "torn" /\ SortOK(g.goal)
+                                       /\ \E k \in ScopeI : RuleId(rules[k]) \in Pre.htorn)
+C12_InvalidRejected == (ev.a = "ret" /\ Pre.tab # "torn") => (ev.verdict = "err:TopologicalSortFailed") = ~SortOK(g.goal)
+C16_DamagedRejected == ev.a = "ret" => (ev.verdict \in {"err:FailedToReadCurrentFileStates", "err:HistoryError"}) = DamagedNeeded
 
 (* ---------------- C17 ------------------------------------------------------ *)
 DiffIdx(a, b) == {i \in DOMAIN a : a[i] # b[i]}
